@@ -96,13 +96,24 @@ def _run_chunk(modname, prop, tier, base_seed, indices, recheck_every):
                 desc = None
             res["idx"] = idx
             res["seed"] = seed
+            if idx < 3 and desc is not None:
+                res["sample"] = _trim(desc)
             res["wall"] = time.time() - t0
             if res.get("violations") or res.get("harness_error") or res.get("nondeterministic"):
+                if res.get("pin") and desc is not None:
+                    desc = dict(desc, **res["pin"])  # e.g. the failing k of an enumeration
                 res["desc"] = desc
             out.append(res)
         return out
     finally:
         faulthandler.cancel_dump_traceback_later()
+
+
+def _trim(desc, limit=5000):
+    s = json.dumps(desc, default=repr)
+    if len(s) <= limit:
+        return json.loads(s)
+    return {"truncated_description": s[:limit]}
 
 
 def _exec_one(modname, prop, desc):
